@@ -829,6 +829,7 @@ def run(ctx):
         for l, f in futs.items():
             results[l] = f.result()
     tot_ops = tot_dis = tot_cert = tot_cf = 0
+    allv = []
     for lvl in (1, 3, 5):
         r = results[lvl]
         report_tables(ctx, lvl, r)
@@ -838,14 +839,31 @@ def run(ctx):
         ctx.obligation("L%d: C outputs satisfy the oracle's definitions (%d ops)" % (lvl, r["ops"]), not nviol, json.dumps([v["what"] for v in nviol])[:500])
         ctx.obligation("L%d: correspondence model vs C (%d ops)" % (lvl, r["ops"]), r["disagreements"] == 0, "%d disagreements" % r["disagreements"])
         ctx.obligation("L%d: model checkers accept every C certificate (%d checks)" % (lvl, r["cert_ops"]), r["cert_fail"] == 0, "%d rejected" % r["cert_fail"])
-        for v in r["violations"]:
-            ctx.violation(v["key"], v["what"], v["replay"], found=v["found"])
+        allv += [(lvl, v) for v in r["violations"]]
         tot_ops += r["ops"]; tot_dis += r["disagreements"]; tot_cert += r["cert_ops"]; tot_cf += r["cert_fail"]
         ctx.evaluations += r["ops"] + r["cert_ops"]
         if "sample" in r:
             ctx.sample(r["sample"])
         ctx.coverage.setdefault("per_level", {})["L%d" % lvl] = dict(ops=r["ops"], kinds=r.get("kinds"), cert_checks=r["cert_ops"],
                                                                    seconds=dict(gen=round(r.get("t_gen", 0), 1), run=round(r.get("t_run", 0), 1), total=round(r.get("t_total", 0), 1)))
+    # one VIOLATION line per defect class: the level is dropped from the key (the replay names the level of the first
+    # occurrence and lists the others); a model-vs-C disagreement on an op whose C function already has a concrete
+    # failing input (oracle contradiction) is the same defect seen on the precondition-violation stream, not a new one
+    found_base = {v["key"].split(":")[2].split("_")[0] for _l, v in allv if v["found"] and len(v["key"].split(":")) > 2}
+    merged = {}
+    for lvl, v in allv:
+        parts = v["key"].split(":")
+        key = ":".join([parts[0]] + parts[2:])
+        if not v["found"] and parts[2] == "model-vs-C" and parts[3].split("_")[0] in found_base:
+            continue
+        if key in merged:
+            merged[key]["replay"].setdefault("also_at_levels", [])
+            if lvl not in merged[key]["replay"]["also_at_levels"] and lvl != merged[key]["replay"].get("level"):
+                merged[key]["replay"]["also_at_levels"].append(lvl)
+            continue
+        merged[key] = dict(v, key=key)
+    for key, v in merged.items():
+        ctx.violation(key, v["what"], v["replay"], found=v["found"])
     ctx.coverage["generator_histograms"] = cov
     ctx.coverage["correspondence"] = dict(drv_ideal=dict(ops=tot_ops, disagreements=tot_dis), certificates=dict(ops=tot_cert, rejected=tot_cf))
     ctx.log("ops=%d disagreements=%d cert checks=%d rejected=%d" % (tot_ops, tot_dis, tot_cert, tot_cf))
